@@ -59,7 +59,7 @@ def run(ctx):
     getm = [bi for bi in gs.call_blocks(lambda c: c.endswith('HashMap::get_mut') or c.endswith('HashMap::get')) if 'streams' in local_field_sources(gs, op_local(gs.term[bi]['args'][0]))]
     ctx.require(ins, 'R19.1: streams map insert in get_stream')
     OPTION = 'core::option::Option'
-    keys = [k for k, d in scrutinees(gs, OPTION).items() if getm and d['root'] == gs.term[getm[0]]['d'][0]]
+    keys = sorted([k for k, d in scrutinees(gs, OPTION).items() if getm and d['root'] == gs.term[getm[0]]['d'][0]], key=len)
     vs = variants_at(gs, OPTION, ins[0], keys[0]) if keys else None
     ctx.ob('R19.1', 'get_stream|new writer only if none exists', vs is not None and set(vs) == {'None'}, f'a descriptor (and writer task) is created only when the directory has none (observed {sorted(vs) if vs else vs})', gs.loc(ins[0]))
 
